@@ -462,6 +462,8 @@ def pat_replace(rnd, sid, cls):
             d["life"] = 1
             if k == "comp" and r.random() < 0.3:
                 d["synth"] = [r.choice([0, 1, 2])]
+        if r.random() < 0.4:
+            d["held"] = 1      # the driver keeps a Dispatcher clone: dropping the source cannot hide a leaked fd
         return d
     srcs = [mk(1), mk(2), mk(3)]
     if r.random() < 0.5:
@@ -523,16 +525,81 @@ def pat_replace(rnd, sid, cls):
     return {"id": sid, "tick_us": 2000, "sources": srcs, "progs": progs, "steps": steps}
 
 
+def pat_defer(rnd, sid):
+    """A callback asks for its own source to be disabled / updated and then returns every kind of post action
+    (or fails); other sources keep producing events over the following dispatches."""
+    r = rnd
+    srcs = []
+    kinds = [r.choice(["comp", "comp", "timer", "ping"])] + [r.choice(["ping", "comp", "chan", "timer"]) for _ in range(r.choice([1, 2, 2]))]
+    for i, k in enumerate(kinds):
+        d = {"s": i + 1, "kind": k}
+        if k == "comp":
+            d["children"] = [{"interest": "r", "mode": r.choice(["level", "level", "oneshot", "edge"])}]
+            if r.random() < 0.3:
+                d["life"] = 1
+        if k == "timer":
+            d["held"] = 1
+            d["dl"] = r.choice([0, 1])
+        srcs.append(d)
+    msg = [700]
+
+    def cause(d):
+        if d["kind"] == "ping":
+            return [{"op": "ping", "s": d["s"]}]
+        if d["kind"] == "chan":
+            msg[0] += 1
+            return [{"op": "send", "s": d["s"], "m": msg[0]}]
+        if d["kind"] == "comp":
+            return [{"op": "wr", "s": d["s"], "c": 0}]
+        return []
+    steps = [{"op": "insert", "s": d["s"]} for d in srcs]
+    tick = 0
+    for rnd_i in range(r.choice([3, 4, 5])):
+        for d in srcs:
+            if rnd_i == 0 or r.random() < 0.7:
+                steps += cause(d)
+        tick += 1
+        steps.append({"op": "advance", "k": tick})
+        steps.append({"op": "dispatch"})
+        if rnd_i == 1 and r.random() < 0.5:
+            steps.append({"op": "enable", "ts": 1})
+    progs = {}
+    for d in srcs:
+        pl = []
+        for k in range(5):
+            ops = []
+            if d["kind"] == "comp":
+                ops.append({"op": "rd", "s": d["s"], "c": 0})
+            p = {"ops": ops}
+            if d["s"] == 1 and k == 0:
+                ops.append({"op": r.choice(["disable", "update"]), "ts": 1})
+                if d["kind"] == "comp":
+                    p["ret"] = r.choice(["reregister", "disable", "remove", "err", "continue"])
+                elif d["kind"] == "timer":
+                    p["ret"] = r.choice(["drop", {"to": tick + 2}, {"dur": 1}])
+            else:
+                if d["kind"] == "comp":
+                    p["ret"] = "continue"
+                if d["kind"] == "timer":
+                    p["ret"] = r.choice(["drop", {"to": 2 + k}])
+            pl.append(p)
+        progs["s%d" % d["s"]] = pl
+    return {"id": sid, "tick_us": 2000, "sources": srcs, "progs": progs, "steps": steps}
+
+
 def gen(seed, n, classes=None):
     classes = classes or CLASSES
     out = []
     for i in range(n):
         cls = classes[i % len(classes)]
         rnd = random.Random(seed * 1000003 + i)
-        if i % 4 == 3 and cls in ("timers", "mix", "disable", "reuse", "ready"):
+        x = rnd.random()
+        if x < 0.2 and cls in ("timers", "mix", "disable", "reuse", "ready", "post"):
             out.append(pat_batch(rnd, "b%d_%s_%d" % (seed, cls, i)))
-        elif i % 4 == 1 and cls in ("reuse", "life", "mix", "faults"):
+        elif x < 0.4 and cls in ("reuse", "life", "mix", "faults", "fds", "idle"):
             out.append(pat_replace(rnd, "p%d_%s_%d" % (seed, cls, i), cls))
+        elif 0.4 <= x < 0.55 and cls in ("post", "mix", "ready", "fds", "disable", "faults", "timers"):
+            out.append(pat_defer(rnd, "d%d_%s_%d" % (seed, cls, i)))
         else:
             out.append(G(rnd, cls).build("r%d_%s_%d" % (seed, cls, i)))
     return out
